@@ -11,8 +11,10 @@ import (
 )
 
 // c15-monitor <n> <seed>: evaluation is pure (repeat, second evaluator, after do/undo, fresh from
-// FEN), colour-symmetric (mirror) and 0 for insufficient material, under the 4 combinations of
-// Eval_Lazy / Eval_AdvPiece.
+// FEN), colour-symmetric (mirror) and 0 for insufficient material, under the 32 combinations of
+// the five evaluation switches (evalSwitches in cmd_models.go: Eval_Lazy, Eval_AdvPiece,
+// UseAttacksInEval, Eval_Mobility, UseKingEval; 0..3 are the combinations of the two options the
+// property names, the others cover the branches that only a config file can switch on).
 func c15Monitor(args []string) int {
 	n, _ := strconv.Atoi(args[0])
 	seed, _ := strconv.ParseUint(args[1], 10, 64)
@@ -41,10 +43,10 @@ func c15Monitor(args []string) int {
 			rep.Violate("mirror-fen-rejected", map[string]interface{}{"fen": fen, "mirror": mfen}, "the mirrored position is not accepted")
 			return
 		}
-		for opt := 0; opt < 4; opt++ {
-			config.Settings.Eval.UseLazyEval = opt&1 != 0
-			config.Settings.Eval.UseAdvancedPieceEval = opt&2 != 0
-			in := map[string]interface{}{"fen": fen, "Eval_Lazy": opt&1 != 0, "Eval_AdvPiece": opt&2 != 0}
+		for opt := 0; opt < 32; opt++ {
+			evalSwitches(opt)
+			in := evalSwitchInput(fen, opt)
+			rep.Stats["evaluations_compared"]++
 			keyBefore, fenBefore := p.ZobristKey(), p.StringFen()
 			v1 := reused.Evaluate(p)
 			v2 := reused.Evaluate(p)
@@ -62,7 +64,8 @@ func c15Monitor(args []string) int {
 			}
 			vm := evaluator.NewEvaluator().Evaluate(mp)
 			if vm != v1 {
-				in2 := map[string]interface{}{"fen": fen, "mirror": mfen, "Eval_Lazy": opt&1 != 0, "Eval_AdvPiece": opt&2 != 0}
+				in2 := evalSwitchInput(fen, opt)
+				in2["mirror"] = mfen
 				rep.Violate("evaluation-not-colour-symmetric", in2, fmt.Sprintf("%d for the position, %d for its colour mirror (mover's view)", v1, vm))
 			}
 			if p.HasInsufficientMaterial() {
